@@ -1742,9 +1742,45 @@ namespace awkward {
 
   template <typename T, typename I>
   void
-  ForthMachineOf<T, I>::compile(const std::vector<std::string>& tokenized,
-                                const std::vector<std::pair<int64_t, int64_t>>& linecol) {
+  ForthMachineOf<T, I>::compile(const std::vector<std::string>& tokenized_in,
+                                const std::vector<std::pair<int64_t, int64_t>>& linecol_in) {
     std::vector<std::vector<I>> dictionary;
+
+    // Remove comments and mark string contents before any structure is scanned, so that
+    // the scanners for ';', 'then', 'loop', ... never see words that are not code.
+    std::vector<std::string> tokenized;
+    std::vector<std::pair<int64_t, int64_t>> linecol;
+    for (IndexTypeOf<std::string> at = 0;  at < tokenized_in.size();  at++) {
+      const std::string& word = tokenized_in[at];
+      if (word == "(") {
+        int64_t nesting = 1;
+        IndexTypeOf<std::string> start = at;
+        while (nesting > 0) {
+          at++;
+          if (at >= tokenized_in.size()) {
+            throw std::invalid_argument(
+              err_linecol(linecol_in, (int64_t)start, (int64_t)at, "'(' is missing its closing ')'")
+              + FILENAME(__LINE__));
+          }
+          if (tokenized_in[at] == "(") { nesting++; }
+          else if (tokenized_in[at] == ")") { nesting--; }
+        }
+      }
+      else if (word == "\\") {
+        while (at < tokenized_in.size()  &&  tokenized_in[at] != "\n") { at++; }
+      }
+      else if ((word == ".\""  ||  word == "s\"")  &&  at + 1 < tokenized_in.size()) {
+        tokenized.push_back(word);
+        linecol.push_back(linecol_in[at]);
+        at++;
+        tokenized.push_back(std::string("\x01") + tokenized_in[at]);
+        linecol.push_back(linecol_in[at]);
+      }
+      else {
+        tokenized.push_back(word);
+        linecol.push_back(linecol_in[at]);
+      }
+    }
 
     // Start recursive parsing.
     std::vector<I> bytecodes;
@@ -1781,6 +1817,11 @@ namespace awkward {
                               std::vector<std::vector<I>>& dictionary,
                               int64_t exitdepth,
                               int64_t dodepth) {
+    if (exitdepth > recursion_max_depth_) {
+      throw std::invalid_argument(
+        err_linecol(linecol, start, start + 1, "control structures are nested more deeply than recursion_max_depth")
+        + FILENAME(__LINE__));
+    }
     int64_t pos = start;
     while (pos < stop) {
       std::string word = tokenized[(IndexTypeOf<std::string>)pos];
@@ -2595,7 +2636,7 @@ namespace awkward {
             + FILENAME(__LINE__)
           );
         }
-        strings_.push_back(tokenized[(IndexTypeOf<std::string>)pos + 1]);
+        strings_.push_back(tokenized[(IndexTypeOf<std::string>)pos + 1].substr(1));
 
         pos += 2;
       }
@@ -2610,7 +2651,7 @@ namespace awkward {
             + FILENAME(__LINE__)
           );
         }
-        strings_.push_back(tokenized[(IndexTypeOf<std::string>)pos + 1]);
+        strings_.push_back(tokenized[(IndexTypeOf<std::string>)pos + 1].substr(1));
 
         pos += 2;
       }
